@@ -294,4 +294,23 @@ theorem stepRE_sat (oc : Bool) (b : Buf) (d : Nat) (h : b.WInv) :
       simp [List.take_append_of_le_length, hl, hlt]
       omega
 
+/-- the default `read_to_end` satisfies its predicate in every state -/
+theorem stepRTE_sat (oc : Bool) (b : Buf) (h : b.WInv) :
+    Sat_RTE b (stepRTE oc b).2.bytes (stepRTE oc b).2 (stepRTE oc b).1.obs = true := by
+  have hl := Buf.readable_length b h
+  unfold stepRTE
+  rw [step_readAll oc b h]
+  have hw := consume_WInv b (b.wi - b.ri) h (Nat.le_refl _)
+  have hr := consume_readable b (b.wi - b.ri) h (Nat.le_refl _)
+  have hcm := consume_mem b (b.wi - b.ri)
+  have hv := validObs_of_WInv b _ hw (by rw [hcm])
+  have hdrop : b.readable.drop (b.wi - b.ri) = [] := List.drop_eq_nil_of_le (by rw [hl]; exact Nat.le_refl _)
+  rw [hdrop] at hr
+  have hwi : (b.consume (b.wi - b.ri)).wi = 0 := by
+    obtain ⟨w1, _, _⟩ := h
+    unfold Buf.consume
+    have : b.ri + (b.wi - b.ri) = b.wi := by omega
+    simp [this]
+  simp [Sat_RTE, hv, obs_rd, obs_wi, obs_mem, Obs.free, Buf.len, hr, hcm, hwi]
+
 end FBV.C01
